@@ -23,7 +23,7 @@ for p in props:
     for node in tree.body:
         if isinstance(node, ast.Assign) and len(node.targets) == 1 and isinstance(node.targets[0], ast.Name):
             name = node.targets[0].id
-            if name in ("LEVEL_TEXT", "LEVEL_NOTE", "TECHNIQUE", "DESIGN_REF"):
+            if name in ("LEVEL_TEXT", "LEVEL_NOTE", "LEVEL_NOTE_EXTRA", "TECHNIQUE", "DESIGN_REF"):
                 ns[name] = ast.literal_eval(node.value)
     checks.append(dict(
         property_id=pid,
@@ -32,8 +32,8 @@ for p in props:
         evidence_file="evidence/%s.json" % pid,
         replay_cmd_template="./check %s --replay {path}" % pid,
         engine="symx",
-        level_claimed=dict(category="other", text=ns.get("LEVEL_TEXT", ""), design_ref=ns.get("DESIGN_REF", "DESIGN.md section 6, " + pid)),
-        level_note=ns.get("LEVEL_NOTE", ""),
+        level_claimed=dict(category="other", text=ns.get("LEVEL_TEXT", ""), design_ref=ns.get("DESIGN_REF", "DESIGN.md section 6 (plan) and section 13 (as built), " + pid)),
+        level_note=(ns.get("LEVEL_NOTE", "") + (" Also: " + ns["LEVEL_NOTE_EXTRA"] if ns.get("LEVEL_NOTE_EXTRA") else "")),
         technique=ns.get("TECHNIQUE", "bounded symbolic execution of the real Python source (symx) with z3 deciding every branch and assertion; counterexamples replayed on the real stack"),
     ))
 man = dict(
